@@ -11,7 +11,7 @@ descs = graphprops.descs_C05
 
 
 def bounded(tier, seed, rep):
-    emission.run_parallel(rep, PROP, MOD, list(descs(tier)) + graphprops.deep_descs(PROP, tier))
+    emission.run_parallel(rep, PROP, MOD, list(graphprops.with_builds(list(descs(tier)) + graphprops.deep_descs(PROP, tier))))
 
 
 def replay(payload):
@@ -21,7 +21,7 @@ def replay(payload):
 RULE = ("emission contract evaluated on the real division_connected / _division_connected: labelings R^n (R<=3) of every labelled simple graph n<=4 (quick) / n<=5 (thorough) and grids up to 2x3 / 3x3, x roots lists (None entries, ids / (y,x)) x allow_empty_group x both encodings; every pattern is decided by one z3 query with the "
         "hidden variables existential; plus 'deep' instances too large to enumerate (paths/cycles up to 13 vertices, grids up to "
         "7x5 / 9x6, frames up to 3x3 / 4x3) with structured assignments needing deep rank certificates (all-active paths, snakes, "
-        "border-rooted zig-zag diagonal chains, perimeter loops) and their single-variable mutations; plus history sequences (all "
+        "border-rooted zig-zag diagonal chains, perimeter loops) and their single-variable mutations; every explicit graph also with edges handed to add_edge in the other orientation / mixed / with the Graph object USED once when half built ('grown'); plus history sequences (all "
         "instances again in one process, forwards/backwards, each grid followed by its transpose); distinct = distinct instances")
 TECHNIQUE = ("bounded stand-in for a contract on the real emitter (precondition / postcondition against a graph "
              "predicate / frame), decided exhaustively inside the stated scope with z3 over the reference semantics "
